@@ -146,6 +146,28 @@ def run_one(ck, prog):
             ck.ob("C16.1", "descriptors-only-from-an-scm-rights-header|level", tested("cmsg_level"), fn=it[0]["path"], site=ctx.site(yb), detail="ScmRights may be produced only under cmsg_level == SOL_SOCKET (1)")
             ck.ob("C16.1", "descriptors-only-from-an-scm-rights-header|type", tested("cmsg_type"), fn=it[0]["path"], site=ctx.site(yb), detail="ScmRights may be produced only under cmsg_type == SCM_RIGHTS (1); other socket-level ancillary data would be decoded as descriptors that were never passed")
 
+    # a length read out of the buffer (cmsg_len, written by the kernel or the peer) is never subtracted from what is left: `left - len`
+    # wraps when the padded length exceeds the rest (a truncated control buffer), and the "is there room" test then says yes. The bound
+    # tests add the length to the other side instead
+    n_sub = 0
+    wraps = []
+    for p4, f4 in prog.fns.items():
+        if not p4.startswith("rusl::platform::compat::socket") and "ControlMessageIterator" not in p4:
+            continue
+        cx4 = prog.ctx(f4)
+        for b4 in f4["blocks"]:
+            if b4["id"] not in cx4.cfg.live_blocks() or b4.get("cleanup"):
+                continue
+            for i4, st4 in enumerate(b4["stmts"]):
+                if st4["k"] == "assign" and st4["rv"]["k"] == "binop" and str(st4["rv"].get("op", "")).startswith("Sub"):
+                    n_sub += 1
+                    e4 = cx4.prov.rvalue(st4["rv"], (b4["id"], i4))
+                    if isinstance(e4, tuple) and e4[0] in ("bin", "overflow") and mentions(e4[3], cx4.prov, lambda z: z[0] == "field" and z[2] == "cmsg_len") and \
+                            not mentions(e4[2], cx4.prov, lambda z: z[0] == "field" and z[2] == "cmsg_len"):
+                        wraps.append((p4, span_str(st4["sp"]), show(e4)[:100]))
+    ck.ob("C16.1", "buffer-supplied-length-never-subtracted", not wraps, fn=wraps[0][0] if wraps else None, site=wraps[0][1] if wraps else None,
+          detail=f"a difference with cmsg_len as subtrahend: {[w[2] for w in wraps]}; it wraps for a message longer than the remaining control data")
+    ck.floor("C16.1", "subtractions in the control-message code", n_sub, 3)
     # sending: the control buffer is sized from the bytes that are then copied into it - cmsg_space(size_of_val(fds)), the same byte count
     # the copy uses (sizing it by the NUMBER of descriptors agrees for one or two of them and overflows the buffer from three on)
     cs = [f for p2, f in prog.fns.items() if p2.startswith("rusl::platform::compat::socket::MsgHdrBorrow") and p2.endswith("::create_send")]
